@@ -516,6 +516,9 @@ def explore(ctx, sc, max_depth=None, state_cap=None, label=None,
         "samples": samples,
         "violations_of_other_properties_seen": dict(other_prop_viol),
     }
+    import os as _os
+    if _os.environ.get("MC_KEEP_SEEN"):
+        cov["_seen"] = list(seen.values())
     if summaries:
         cov["summary_keys"] = len(summaries)
         cov["summary_keys_reached_by_several_hidden_states"] = n_multi
